@@ -68,6 +68,10 @@ fn fixture(owner_is_a: bool, with_record: bool) -> Fixture {
     fixture_n(owner_is_a, with_record, true)
 }
 fn fixture_n(owner_is_a: bool, with_record: bool, with_sample: bool) -> Fixture {
+    fixture_p(owner_is_a, with_record, with_sample, true)
+}
+/// `match_b == false`: only writer A is matched (B exists but is unknown to the reader).
+fn fixture_p(owner_is_a: bool, with_record: bool, with_sample: bool, match_b: bool) -> Fixture {
     let a = wguid(kani::any());
     let b = wguid(kani::any());
     kani::assume(!eq16(&a, &b));
@@ -88,7 +92,9 @@ fn fixture_n(owner_is_a: bool, with_record: bool, with_sample: bool) -> Fixture 
     };
     let mut r = reader(neutral_qos(true));
     r.matched_publication_list.push(publication(a, sa));
-    r.matched_publication_list.push(publication(b, sb));
+    if match_b {
+        r.matched_publication_list.push(publication(b, sb));
+    }
     r.instances.push(mk_inst(&inst));
     if with_sample {
         r.sample_list.push(mk_sample(&stored));
@@ -120,13 +126,28 @@ struct StepOut {
 }
 
 fn c24_step(part: Part) -> StepOut {
-    let owner_is_a: bool = kani::any();
-    let mut f = fixture_n(owner_is_a, true, false);
+    c24_step_kind(part, None, None, None, true)
+}
+
+/// `fixed`: a concrete change kind, `owner_sel` / `writer_sel`: concrete owner / writer (true = A, the first
+/// matched publication) -- the quick-tier variants; the fully symbolic step costs 5 GB.
+fn c24_step_kind(part: Part, fixed: Option<ChangeKind>, owner_sel: Option<bool>, writer_sel: Option<bool>, match_b: bool) -> StepOut {
+    let owner_is_a: bool = match owner_sel {
+        Some(x) => x,
+        None => kani::any(),
+    };
+    let mut f = fixture_p(owner_is_a, true, false, match_b);
     let (o, so) = if owner_is_a { (f.a, f.sa) } else { (f.b, f.sb) };
-    let w_is_a: bool = kani::any();
+    let w_is_a: bool = match writer_sel {
+        Some(x) => x,
+        None => kani::any(),
+    };
     let (w, sw) = if w_is_a { (f.a, f.sa) } else { (f.b, f.sb) };
     let from_owner = w_is_a == owner_is_a;
-    let kind = any_kind();
+    let kind = match fixed {
+        Some(k) => k,
+        None => any_kind(),
+    };
     let rcv = any_time();
 
     let dropped_expected = !from_owner && sw <= so; // a tie may be resolved either way; the implementation keeps the owner
@@ -139,7 +160,7 @@ fn c24_step(part: Part) -> StepOut {
     let c = code(&res);
     let (nrec, owner_after) = owner_of(&f.r, &f.h);
     assert!(nrec <= 1 && f.r.instance_ownership.len() <= 1, "C24: at most one ownership record per instance");
-    assert!(f.r.instances.len() == 1 && f.r.matched_publication_list.len() == 2, "C24: instance table and matched writers are not changed in number");
+    assert!(f.r.instances.len() == 1 && f.r.matched_publication_list.len() == (if match_b { 2 } else { 1 }), "C24: instance table and matched writers are not changed in number");
 
     let accepted = c == 0;
     if from_owner || sw > so {
@@ -189,7 +210,62 @@ fn c24_step(part: Part) -> StepOut {
     StepOut { from_owner, stronger: !from_owner && sw > so, weaker: !from_owner && sw < so, tie: !from_owner && sw == so, code: c, kind }
 }
 
+// ---- quick tier: the same step with a CONCRETE change kind (about 1/3 of the formula of the symbolic-kind step) --------
+
+// @check props=C24 tier=quick
+// @desc EXCLUSIVE ownership, one DATA change (ALIVE) from either writer: data of the owner or of a stronger writer is accepted and its writer is the owner afterwards (take-over), data of a weaker writer is NotAdded, equal strengths either way; a dropped change leaves stored samples, owner, view/instance state and generation counts untouched; never more than one ownership record -- outside the trigger of KF-C24-1 (all 5 kinds: c24_step__rest, thorough)
+// @bounds 1 instance (fully symbolic view/instance state, generation counts 0..10^6), no stored sample, 2 matched writers with strengths over the full i32 range, owner A or B, ALIVE change from A or B; unwind 4
+// @assume negation of trigger KF-C24-1 (for ALIVE: a non-owner that is not stronger writes while the instance is not alive)
+// @assume I: exactly one ownership record for the instance and its owner is a matched writer; reader QoS: EXCLUSIVE ownership, KEEP_ALL, unlimited resource limits, BY_RECEPTION_TIMESTAMP, minimum_separation 0
+// @assume stub: InstanceHandle == is replaced by the equivalent branch-free 128-bit comparison (support_reader2::ih_eq; equivalence proved over all inputs by c20_stub_equivalence); [T; N] == / != [U; N] (used for the 16-byte writer guids and publication keys) by the element-wise loop-free support_reader2::arr_eq / arr_ne (equivalence on [u8; 16] proved over all inputs by c24_stub_equivalence)
+// @enc dcps::dcps_domain_participant::data_reader_entity::DataReaderEntity::add_reader_change
+#[kani::proof]
+#[kani::unwind(4)]
+#[kani::stub(<InstanceHandle as PartialEq<InstanceHandle>>::eq, super::support_reader2::ih_eq)]
+#[kani::stub(<[u8; 16] as PartialEq<[u8; 16]>>::eq, super::support_reader2::arr_eq)]
+#[kani::stub(<[u8; 16] as PartialEq<[u8; 16]>>::ne, super::support_reader2::arr_ne)]
+fn c24_data__rest() {
+    let o = c24_step_kind(Part::Rest, Some(ChangeKind::Alive), None, None, true);
+    kani::cover!(o.from_owner && o.code == 0, "the owner's data was accepted");
+    kani::cover!(o.stronger && o.code == 0, "a stronger writer took the instance over");
+    kani::cover!(o.weaker && o.code == 1, "a weaker writer's data was dropped");
+}
+
 // @check props=C24 tier=quick known=KF-C24-1
+// @desc KF-C24-1 on its most common shape: a NOT_ALIVE_DISPOSED change from a writer that is not the owner and not stronger is NotAdded and must leave view state, instance state and generation counts untouched (expected to fail; the full trigger with all kinds is c24_step__known, thorough)
+// @bounds 1 instance (fully symbolic state), no stored sample, 2 matched writers with strengths over the full i32 range, owner A (first matched writer), NOT_ALIVE_DISPOSED from B; unwind 4
+// @assume trigger KF-C24-1 restricted to kind NOT_ALIVE_DISPOSED: the writer is not the owner, its strength is <= the owner's, and the instance is ALIVE or NOT_NEW
+// @assume I: exactly one ownership record for the instance and its owner is a matched writer; reader QoS: EXCLUSIVE ownership, KEEP_ALL, unlimited resource limits, BY_RECEPTION_TIMESTAMP, minimum_separation 0
+// @assume stub: InstanceHandle == is replaced by the equivalent branch-free 128-bit comparison (support_reader2::ih_eq; equivalence proved over all inputs by c20_stub_equivalence); [T; N] == / != [U; N] (used for the 16-byte writer guids and publication keys) by the element-wise loop-free support_reader2::arr_eq / arr_ne (equivalence on [u8; 16] proved over all inputs by c24_stub_equivalence)
+// @enc dcps::dcps_domain_participant::data_reader_entity::DataReaderEntity::add_reader_change
+#[kani::proof]
+#[kani::unwind(4)]
+#[kani::stub(<InstanceHandle as PartialEq<InstanceHandle>>::eq, super::support_reader2::ih_eq)]
+#[kani::stub(<[u8; 16] as PartialEq<[u8; 16]>>::eq, super::support_reader2::arr_eq)]
+#[kani::stub(<[u8; 16] as PartialEq<[u8; 16]>>::ne, super::support_reader2::arr_ne)]
+fn c24_weaker_dispose__known() {
+    let o = c24_step_kind(Part::Known1, Some(ChangeKind::NotAliveDisposed), Some(true), Some(false), true);
+    kani::cover!(o.code == 1, "a dispose of a non-owner was dropped");
+}
+
+// @check props=C24 tier=quick known=KF-C24-2
+// @desc KF-C24-2 on its plain shape: a NOT_ALIVE_UNREGISTERED change from the owner is accepted and must leave no ownership record (expected to fail; both unregister kinds: c24_step_unregister__known, thorough)
+// @bounds 1 instance (fully symbolic state), no stored sample, the owner A is the only matched writer (symbolic strength), NOT_ALIVE_UNREGISTERED from A; unwind 4
+// @assume trigger KF-C24-2 restricted to kind NOT_ALIVE_UNREGISTERED from the owner itself
+// @assume I: exactly one ownership record for the instance and its owner is a matched writer; reader QoS: EXCLUSIVE ownership, KEEP_ALL, unlimited resource limits, BY_RECEPTION_TIMESTAMP, minimum_separation 0
+// @assume stub: InstanceHandle == is replaced by the equivalent branch-free 128-bit comparison (support_reader2::ih_eq; equivalence proved over all inputs by c20_stub_equivalence); [T; N] == / != [U; N] (used for the 16-byte writer guids and publication keys) by the element-wise loop-free support_reader2::arr_eq / arr_ne (equivalence on [u8; 16] proved over all inputs by c24_stub_equivalence)
+// @enc dcps::dcps_domain_participant::data_reader_entity::DataReaderEntity::add_reader_change
+#[kani::proof]
+#[kani::unwind(4)]
+#[kani::stub(<InstanceHandle as PartialEq<InstanceHandle>>::eq, super::support_reader2::ih_eq)]
+#[kani::stub(<[u8; 16] as PartialEq<[u8; 16]>>::eq, super::support_reader2::arr_eq)]
+#[kani::stub(<[u8; 16] as PartialEq<[u8; 16]>>::ne, super::support_reader2::arr_ne)]
+fn c24_owner_unregister__known() {
+    let o = c24_step_kind(Part::Known2, Some(ChangeKind::NotAliveUnregistered), Some(true), Some(true), false);
+    kani::cover!(o.code == 0, "an unregister was accepted");
+}
+
+// @check props=C24 tier=thorough known=KF-C24-1
 // @desc EXCLUSIVE ownership, one add_reader_change from a non-owner that is not stronger than the owner, restricted to the trigger of KF-C24-1: the dropped change must leave view state, instance state and generation counts untouched (expected to fail: add_reader_change applies InstanceState::update_state before the ownership test, so a weaker writer's dispose / unregister / write changes the instance state although the change is NotAdded)
 // @bounds 1 instance (fully symbolic view/instance state, generation counts 0..10^6), no stored sample, 2 matched writers with strengths over the full i32 range, owner A or B, change from A or B of any of the 5 kinds; unwind 4 (<= 3 list entries + 1)
 // @assume trigger KF-C24-1: the writer is not the owner, its strength is <= the owner's, and update_state(kind) is not the identity on the instance (ALIVE instance + dispose/unregister kind, not-alive instance + ALIVE kind, or NOT_NEW instance + NOT_ALIVE_DISPOSED / NOT_ALIVE_UNREGISTERED)
@@ -206,7 +282,7 @@ fn c24_step__known() {
     kani::cover!(o.code == 1, "a change of a non-owner was dropped");
 }
 
-// @check props=C24 tier=quick
+// @check props=C24 tier=thorough
 // @desc EXCLUSIVE ownership, one add_reader_change: a change from the owner or a stronger writer is accepted and (for data) its writer is the owner afterwards; a weaker writer's change is NotAdded; an equally strong writer's change is accepted or dropped; a dropped change leaves stored samples, owner, view/instance state and generation counts untouched; an accepted dispose keeps its writer as owner; never more than one ownership record -- outside the triggers of KF-C24-1 and KF-C24-2
 // @bounds 1 instance (fully symbolic view/instance state, generation counts 0..10^6), no stored sample, 2 matched writers with strengths over the full i32 range, owner A or B, change from A or B of any of the 5 kinds; unwind 4 (<= 3 list entries + 1)
 // @assume negation of trigger KF-C24-1 and of trigger KF-C24-2 (no accepted unregister)
@@ -301,7 +377,7 @@ fn c24_owner_unmatched__known() {
     core::mem::forget(r);
 }
 
-// @check props=C24 tier=quick known=KF-C24-2
+// @check props=C24 tier=thorough known=KF-C24-2
 // @desc the owner (or a stronger writer) UNREGISTERS the instance (NOT_ALIVE_UNREGISTERED or NOT_ALIVE_DISPOSED_UNREGISTERED): the change is accepted and must leave no ownership record, so that ownership can pass to another writer (expected to fail: add_reader_change removes the record at line 419 but re-creates it for the same writer at the end of the function when the change is stored, so every weaker writer's data stays NotAdded after the owner unregistered)
 // @bounds 1 instance (fully symbolic state), no stored sample, 2 matched writers with strengths over the full i32 range, owner A or B, unregister change from the owner or from the stronger of the two; unwind 4
 // @assume trigger KF-C24-2: an accepted change of kind NOT_ALIVE_UNREGISTERED or NOT_ALIVE_DISPOSED_UNREGISTERED (writer is the owner or stronger than the owner)
@@ -318,7 +394,7 @@ fn c24_step_unregister__known() {
     kani::cover!(o.code == 0, "an unregister was accepted");
 }
 
-// @check props=C24 tier=quick
+// @check props=C24 tier=thorough
 // @desc an instance without ownership record (never owned, or released by a missed deadline or -- once KF-C24-2 is repaired -- by the owner's unregister): data from any matched writer, whatever its strength, is accepted and that writer is the owner afterwards -- together with 'the owner's unregister releases the instance' (c24_step_unregister__known) this is the hand-over on unregister
 // @bounds 1 instance (fully symbolic state), no stored sample, writers A and B matched with symbolic strengths (full i32 range), no ownership record, one ALIVE change from A or B; unwind 4
 // @assume reader QoS: EXCLUSIVE ownership, KEEP_ALL, unlimited resource limits
@@ -341,7 +417,7 @@ fn c24_free_instance_taken() {
     core::mem::forget(f.r);
 }
 
-// @check props=C24 tier=quick
+// @check props=C24 tier=thorough
 // @desc the loop-free array comparison stubs agree with the library's == / != on [u8; 16] for all pairs of arrays (all 32 bytes symbolic)
 // @bounds none (all 2^256 pairs); unwind 17 (the library comparison is a 16-byte memcmp loop)
 // @enc core::array::equality::eq
